@@ -3,6 +3,6 @@ CONSTANTS
   Peers = {"p1"}
   Self = "self"
   MaxEpoch = 2
-  Defects = {"StaleLeftEpoch", "StickyLeftFilter"}
+  Defects = {"StaleLeftEpoch", "LateStartReassign", "StickyLeftFilter"}
   Depth = 5
 CONSTRAINT Emit
